@@ -28,7 +28,8 @@ RULE = (
 )
 TRUSTED = [
     "the hand transcription of the format readers into lean/Iodata/Model/Rd/* (xyz, sdf, mol2, pdb, cube, gromacs, and "
-    "chgcar._load_vasp_header/_load_vasp_grid + the load_one of poscar, chgcar, locpot in Model/Rd/Vasp.lean), checked "
+    "chgcar._load_vasp_header/_load_vasp_grid + the load_one of poscar, chgcar, locpot in Model/Rd/Vasp.lean, "
+    "charmm.load_one/_helper_read_crd in Model/Rd/Crd.lean), checked "
     "by the rdr:<fmt> streams only",
     "the ast translator harness/vh/flowlib.py (api.py -> Gen/ApiFlow.lean)",
     "the scripted format module / traced open() / traced LineIterator of harness/vh/flowlib.py",
@@ -45,6 +46,8 @@ ASSUMPTIONS = [
     "VASP grid readers (CHGCAR, LOCPOT): `for line in lit` of _load_vasp_grid swallows the StopIteration of the end of "
     "the file and a later next(lit) counts once more, so their proved read bound (and the largest line number a "
     "LoadError can name) is N+2, attained by a file whose last line has four or more integers",
+    "CHARMM CRD: the LoadError the reader raises itself (no bare `*`, count line not isdigit()) passes the funnel "
+    "unchanged; the exception classes of crd_failures are those of the model, tied to charmm.load_one by rdr:crd",
 ]
 RULE = RULE + ". " + rdrs.RULE
 ASSUMPTIONS = ASSUMPTIONS + rdrs.ASSUMPTIONS
